@@ -323,6 +323,12 @@ def draw(source, ty, hint):
     if tag == 'Str':
         return source.str(hint, ty.args[0])
     if tag == 'Any':
+        if ty.args and ty.args[0] == 'regex':
+            import re
+            pool = ['a', 'b', 'ab', 'a*', 'b$', '', '.', 'a|b']
+            pat = source.choice(hint + '.regex', pool) if not isinstance(source, ModelSource) else \
+                pool[abs(hash(str(source.model.get(hint, hint)))) % len(pool)]
+            return re.compile(conv_str(pat, ty.args[1]), re.DOTALL)
         return Opaque(source.fresh_name(hint))
     if tag == 'None':
         return None
